@@ -343,7 +343,16 @@ def order_rows(vendor):
                 rows.append(s[0])
             if len(rows) >= 4:
                 break
-    return rows + ["zz 1", "zy"]
+    # foreign rows (no rule of any shipped .order file mentions them), plain and beginning with the vendor's negation
+    # word, and the negated form of the first ordered row
+    neg = reverse_word(vendor)
+    return rows[:3] + ["zz 1", "zy", neg + " zz 1", neg + " zy"] + ([neg + " " + rows[0]] if rows else [])
+
+
+def reverse_word(vendor):
+    from annet.vendors import registry_connector
+    reg = registry_connector.get()
+    return reg[vendor].reverse if vendor in reg else "no"
 
 
 def to_list(t):
@@ -369,10 +378,24 @@ def judge_c(vendor, forest, report):
         report({"kind": "order_config-changes-rows", "vendor": vendor}, case, "in=%r out=%r" % (forest, got))
     if again != got:
         report({"kind": "order_config-not-idempotent", "vendor": vendor}, case, "once=%r twice=%r" % (got, again))
-    foreign = [r for r, _ in forest if r.startswith("z")]
-    foreign_out = [r for r, _ in got if r.startswith("z")]
-    if foreign != foreign_out:
-        report({"kind": "unmentioned-rows-reordered", "vendor": vendor}, case, "in=%r out=%r" % (forest, got))
+    neg = reverse_word(vendor) + " z"
+
+    def levels(a, b):
+        yield [r for r, _ in a], [r for r, _ in b]
+        for r, ch in a:
+            yield from levels(ch, next((c2 for r2, c2 in b if r2 == r), []))
+    for rows_in, rows_out in levels(forest, got):
+        for what, pred in (("plain", lambda r: r.startswith("z")), ("negated", lambda r: r.startswith(neg))):
+            if [r for r in rows_in if pred(r)] != [r for r in rows_out if pred(r)]:
+                report({"kind": "unmentioned-rows-reordered", "vendor": vendor, "shape": "two %s rows swapped" % what}, case,
+                       "in=%r out=%r" % (forest, got))
+        f_in = [r for r in rows_in if r.startswith("z") or r.startswith(neg)]
+        f_out = [r for r in rows_out if r.startswith("z") or r.startswith(neg)]
+        if f_in != f_out and sorted(f_in) == sorted(f_out):
+            plain_in = [r for r in f_in if r.startswith("z")]
+            if [r for r in f_out if r.startswith("z")] == plain_in and [r for r in f_out if not r.startswith("z")] == [r for r in f_in if not r.startswith("z")]:
+                report({"kind": "unmentioned-rows-reordered", "shape": "an unmentioned row beginning with the negation word is moved before unmentioned plain rows"},
+                       case, "in=%r out=%r" % (forest, got))
     return got != forest
 
 
